@@ -14,6 +14,7 @@ package main
 import (
 	"bytes"
 	"encoding/json"
+	"errors"
 	"fmt"
 
 	"github.com/nspcc-dev/neo-go/pkg/config"
@@ -79,7 +80,7 @@ func c03RunDrop(co *caseOut, in c03DropInput) {
 	rejectedOnly := map[string]bool{} // keys that only refused blocks wrote
 	var coqBlocks []string
 	vals := &c03Vals{m: map[string]int{}}
-	drops, afterDrop, restarts := 0, 0, 0
+	drops, afterDrop, restarts, windowReads := 0, 0, 0, 0
 	pendingDrop := false
 
 	parse := func(kv [][2]string) (batch map[string][]byte, seq [][2][]byte) {
@@ -112,14 +113,35 @@ func c03RunDrop(co *caseOut, in c03DropInput) {
 		}
 		return t.StateRoot()
 	}
-	check := func(evi int) []c03KV {
+	// phase "": after a block was finalised; "pending": INSIDE the window between AddMPTBatch(h+1) and UpdateCurrentLocal /
+	// the refusal (storeBlock: header state-root check, lock waits, PersistPrivate); "dropped": after a refused block.
+	// In every phase the reads at every stored root answer from the contract storage of that height alone; pend = the
+	// changes of the batch that is applied but not finalised (its keys are probed as well: changed and deleted ones must
+	// read the committed value, added ones must be absent and unprovable).
+	check := func(evi int, phase string, pend [][2][]byte) []c03KV {
 		n := len(roots) - 1
 		var latest []c03KV
+		viol := func(note string, impl any) {
+			switch phase {
+			case "pending":
+				note = "while the next block's MPT batch is applied but not finalised: " + note
+			case "dropped":
+				note = "after a block was refused with its MPT batch applied: " + note
+			}
+			viol(note, impl)
+		}
+		windowReads++
 		for h := 1; h <= n && !failed; h++ {
 			if in.Mode == "latest" && h != n {
 				continue
 			}
-			at := func(m map[string]any) map[string]any { m["height"] = h; m["event"] = evi; return m }
+			at := func(m map[string]any) map[string]any {
+				m["height"], m["event"], m["latest"] = h, evi, h == n
+				if phase != "" {
+					m["phase"] = phase
+				}
+				return m
+			}
 			want := c03Sorted(models[h])
 			if fr := freshRoot(models[h]); !fr.Equals(roots[h]) {
 				viol("the state root stored for a height is not the root of the contract storage after that block",
@@ -182,18 +204,79 @@ func c03RunDrop(co *caseOut, in c03DropInput) {
 					}
 				}
 			}
+			// FindStates with every range shape over the keys of this height and of the pending batch
+			var probe [][]byte
+			for _, kv := range want {
+				probe = append(probe, kv.K)
+			}
+			for _, c := range pend {
+				probe = append(probe, c[0])
+			}
+			type fq struct {
+				prefix, start []byte
+				max           int
+			}
+			var fqs []fq
+			for i, k := range probe {
+				if len(probe) > 6 && i%(len(probe)/6+1) != 0 && i < len(want) {
+					continue
+				}
+				for pl := 0; pl <= len(k); pl++ {
+					fqs = append(fqs, fq{k[:pl], nil, 1000}, fq{k[:pl], []byte{}, 2}, fq{k[:pl], k[pl:], 1000})
+					if pl < len(k) {
+						s := bytes.Clone(k[pl:])
+						s[len(s)-1]--
+						fqs = append(fqs, fq{k[:pl], s, 1}, fq{k[:pl], s[:len(s)-1], 3})
+					}
+				}
+			}
+			if len(fqs) > 80 {
+				fqs = fqs[:80]
+			}
+			for _, q := range fqs {
+				var kvs []storage.KeyValue
+				var err error
+				if p := catch(func() { kvs, err = mod.FindStates(roots[h], q.prefix, q.start, q.max) }); p != "" || (err != nil && !errors.Is(err, mpt.ErrNotFound)) {
+					viol("FindStates fails at a stored root", at(map[string]any{"prefix": hx(q.prefix), "start": hx(q.start), "error": fmt.Sprint(p, err)}))
+					break
+				}
+				var wq, gq []c03KV
+				for _, kv := range want {
+					if bytes.HasPrefix(kv.K, q.prefix) && (q.start == nil || bytes.Compare(kv.K[len(q.prefix):], q.start) > 0) {
+						wq = append(wq, kv)
+					}
+				}
+				if len(wq) > q.max {
+					wq = wq[:q.max]
+				}
+				for _, kv := range kvs {
+					gq = append(gq, c03KV{kv.Key, kv.Value})
+				}
+				if !c03EqKVs(gq, wq) {
+					viol("FindStates at a stored root differs from the range query on the contract storage of that height",
+						at(map[string]any{"prefix": hx(q.prefix), "start": hx(q.start), "start_nil": q.start == nil, "max": q.max, "got": c03ShowKVs(gq), "want": c03ShowKVs(wq)}))
+					break
+				}
+			}
+			absent := map[string]bool{}
 			for k := range rejectedOnly {
+				absent[k] = true
+			}
+			for _, c := range pend {
+				absent[string(c[0])] = true
+			}
+			for k := range absent {
 				if _, ok := models[h][k]; ok || failed {
 					continue
 				}
 				v, err := mod.GetState(roots[h], []byte(k))
 				if err == nil {
-					viol("a key that only a refused block wrote is readable at a stored root", at(map[string]any{"key": hx([]byte(k)), "value": hx(v)}))
+					viol("a key that only a refused / not yet finalised block wrote is readable at a stored root", at(map[string]any{"key": hx([]byte(k)), "value": hx(v)}))
 					break
 				}
 				if proof, err := mod.GetStateProof(roots[h], []byte(k)); err == nil {
 					if pv, ok := mpt.VerifyProof(roots[h], []byte(k), proof); ok {
-						viol("a key that only a refused block wrote has a verifying proof at a stored root", at(map[string]any{"key": hx([]byte(k)), "value": hx(pv)}))
+						viol("a key that only a refused / not yet finalised block wrote has a verifying proof at a stored root", at(map[string]any{"key": hx([]byte(k)), "value": hx(pv)}))
 						break
 					}
 				}
@@ -236,7 +319,11 @@ func c03RunDrop(co *caseOut, in c03DropInput) {
 					panic("AddMPTBatch failed: " + err.Error())
 				}
 				root = sr.Root
-				if ev.T == "drop" {
+				// the window: the batch of idx is applied on the private layer, nothing is finalised
+				if n >= 1 {
+					check(evi, "pending", seq)
+				}
+				if ev.T == "drop" || failed {
 					return
 				}
 				if _, err := cache.Persist(); err != nil {
@@ -263,7 +350,13 @@ func c03RunDrop(co *caseOut, in c03DropInput) {
 						}
 					}
 				}
+				if n >= 1 {
+					check(evi, "dropped", seq)
+				}
 				continue
+			}
+			if failed {
+				break
 			}
 			next := map[string][]byte{}
 			for k, v := range models[n] {
@@ -283,7 +376,7 @@ func c03RunDrop(co *caseOut, in c03DropInput) {
 				afterDrop++
 				pendingDrop = false
 			}
-			latest := check(evi)
+			latest := check(evi, "", nil)
 			if failed {
 				break
 			}
@@ -294,7 +387,7 @@ func c03RunDrop(co *caseOut, in c03DropInput) {
 	if restarts > 0 {
 		tag += "+restart"
 	}
-	co.add(kind, tag, afterDrop > 0, in, map[string]any{"blocks": len(roots) - 1, "refused": drops, "accepted_after_refused": afterDrop},
+	co.add(kind, tag, afterDrop > 0, in, map[string]any{"blocks": len(roots) - 1, "refused": drops, "accepted_after_refused": afterDrop, "read_batteries": windowReads},
 		fmt.Sprintf("CHistory [] %s", coqList(coqBlocks)))
 }
 
